@@ -113,3 +113,22 @@ Definition check_991 (fs : list field) : verdict :=
          end
   | _ => VBad 99 []
   end.
+
+(* ------------------------------------------------------------------ thrift/generic seekIntHash *)
+From DG Require Gen_domhash.
+(* the slot linear probing must find: the first empty slot at or after h, cyclically; h itself after N occupied probes *)
+Fixpoint first_empty (fuel : nat) (occ : list Z) (N h : Z) : Z :=
+  match fuel with
+  | O => h
+  | S f => if idx occ h =? 0 then h else first_empty f occ N ((h + 1) mod N)
+  end.
+(* 591 fields: occupancy of the N slots (one byte each, 0 = empty), key, slot returned *)
+Definition check_591 (fs : list field) : verdict :=
+  match fs with
+  | [FB occ; FZ key; FZ slot] =>
+    let N := blen occ in
+    let g := Gen_domhash.seekIntHash {| Gen_domhash.seekIntHash_next_Path_t := fun i => idx occ i |} key N in
+    vand (expect 1 (g =? slot) [FZ g])
+         (expect 2 (first_empty (Z.to_nat N) occ N (key mod N) =? slot) [FZ (first_empty (Z.to_nat N) occ N (key mod N))])
+  | _ => VBad 99 []
+  end.
